@@ -767,6 +767,8 @@ def b5_ac_status_record(a, stride=10, fill=0):
 
 
 def timer_bytes(t):
+    if t.get("raw") is not None:
+        return bytes(t["raw"])   # e.g. a disabled timer whose ignored bits are no time at all
     return bytes([(0x80 if t["disabled"] else 0) | (t["hour"] & 0x1F), t["minute"] & 0x3F])
 
 
